@@ -91,6 +91,11 @@ func marshal(val cty.Value, ty cty.Type, path cty.Path, enc *msgpack.Encoder) er
 					err = enc.EncodeInt(iv)
 				} else if fv, acc := bf.Float64(); acc == big.Exact && !bf.IsInt() {
 					err = enc.EncodeFloat64(fv)
+				} else if bf.IsInt() {
+					// A whole number beyond the int64 range: all of its digits,
+					// because the shortest text that identifies it at its own
+					// precision is another number once parsed at full precision.
+					err = enc.EncodeString(bf.Text('f', 0))
 				} else {
 					err = enc.EncodeString(bf.Text('f', -1))
 				}
